@@ -25,7 +25,7 @@ def slotWireR : PAny PRouteConfiguration → Bool
   | _ => true
 
 /-- `UnmarshalRDS` never panics on anything `proto.Unmarshal` can hand it -/
-theorem rds_no_panic (compiles : String → Bool) (xs : List (PAny PRouteConfiguration))
+theorem rds_no_panic (compiles : Oracles) (xs : List (PAny PRouteConfiguration))
     (h : xs.all slotWireR = true) : decodeRDS F compiles xs ≠ .panic := by
   induction xs with
   | nil => simp [decodeRDS]
@@ -57,7 +57,7 @@ def slotValidR : PAny PRouteConfiguration → Bool
   | .ok c => rcValid c
   | _ => false
 
-theorem decodeRoute_err_iff (compiles : String → Bool) (r : PRoute) (hw : routeWire r = true) :
+theorem decodeRoute_err_iff (compiles : Oracles) (r : PRoute) (hw : routeWire r = true) :
     (∃ d, decodeRoute F compiles r = .ok d) ↔ (r.mtch.isSome = true ∧ r.action ≠ .none) := by
   unfold decodeRoute
   cases hm : r.mtch with
@@ -79,7 +79,7 @@ theorem decodeRoute_err_iff (compiles : String → Bool) (r : PRoute) (hw : rout
         | none => rw [hs] at hw; simp [clusterSpecWire] at hw
         | some l => simp
 
-theorem decodeRoutes_ok_iff (compiles : String → Bool) (rs : List PRoute) (hw : rs.all routeWire = true) :
+theorem decodeRoutes_ok_iff (compiles : Oracles) (rs : List PRoute) (hw : rs.all routeWire = true) :
     (∃ ds, decodeRoutes F compiles rs = .ok ds) ↔
       rs.all (fun r => r.mtch.isSome && (match r.action with | .none => false | _ => true)) = true := by
   induction rs with
@@ -120,7 +120,7 @@ theorem decodeRoutes_ok_iff (compiles : String → Bool) (rs : List PRoute) (hw 
           exact ⟨⟨hd.1, hact.mpr hd.2⟩, h2.mp ⟨ds, hrs⟩⟩
         · intro _; exact ⟨_, rfl⟩
 
-theorem decodeVHosts_ok_iff (compiles : String → Bool) (vs : List PVirtualHost)
+theorem decodeVHosts_ok_iff (compiles : Oracles) (vs : List PVirtualHost)
     (hw : vs.all (fun v => v.routes.all routeWire) = true) :
     (∃ ds, decodeVHosts F compiles vs = .ok ds) ↔
       vs.all (fun v => v.routes.all (fun r => r.mtch.isSome && (match r.action with | .none => false | _ => true))) = true := by
@@ -159,7 +159,7 @@ theorem decodeVHosts_ok_iff (compiles : String → Bool) (vs : List PVirtualHost
 
 /-- **error iff invalid**: the response is rejected exactly when some resource has the wrong type URL, is not a
 valid encoding, or contains a route without match or action; a well-formed response is never rejected -/
-theorem rds_error_iff_invalid (compiles : String → Bool) (xs : List (PAny PRouteConfiguration))
+theorem rds_error_iff_invalid (compiles : Oracles) (xs : List (PAny PRouteConfiguration))
     (hw : xs.all slotWireR = true) (d : Decoded DRouteCfg) (h : decodeRDS F compiles xs = .ok d) :
     d.errors = [] ↔ xs.all slotValidR = true := by
   induction xs generalizing d with
@@ -221,7 +221,7 @@ def filterWire : PFilterCfg → Bool
 def listenerWire (l : PListener) : Bool :=
   (l.chains ++ (match l.dflt with | some c => [c] | none => [])).all (fun fc => fc.filters.all filterWire)
 
-theorem thriftRoutes_no_panic (compiles : String → Bool) (rs : List PThriftRoute)
+theorem thriftRoutes_no_panic (compiles : Oracles) (rs : List PThriftRoute)
     (h : rs.all (fun r => match r.route with | some a => thriftClusterWire a | none => true) = true) :
     decodeThriftRoutes compiles rs ≠ .panic := by
   induction rs with
@@ -293,7 +293,7 @@ theorem rateLimitOf_no_panic (fs : List PHttpFilter) : rateLimitOf F fs ≠ .pan
               obtain ⟨a, b⟩ := v
               cases a <;> cases b <;> first | exact ih | simp
 
-theorem decodeHcm_no_panic (compiles : String → Bool) (h : PHcm) (hw : hcmWire h = true) :
+theorem decodeHcm_no_panic (compiles : Oracles) (h : PHcm) (hw : hcmWire h = true) :
     decodeHcm F compiles h ≠ .panic := by
   unfold decodeHcm
   have := rateLimitOf_no_panic h.httpFilters
@@ -321,7 +321,7 @@ theorem decodeHcm_no_panic (compiles : String → Bool) (h : PHcm) (hw : hcmWire
         | err e => simp
         | ok d => simp
 
-theorem decodeChain_no_panic (compiles : String → Bool) (fc : PFilterChain) (hw : fc.filters.all filterWire = true) :
+theorem decodeChain_no_panic (compiles : Oracles) (fc : PFilterChain) (hw : fc.filters.all filterWire = true) :
     decodeChain F compiles fc ≠ .panic := by
   unfold decodeChain
   simp only
@@ -378,7 +378,7 @@ theorem decodeChain_no_panic (compiles : String → Bool) (fc : PFilterChain) (h
               | err e => simp
               | ok v => obtain ⟨n, inl⟩ := v; simp
 
-theorem decodeListener_no_panic (compiles : String → Bool) (l : PListener) (hw : listenerWire l = true) :
+theorem decodeListener_no_panic (compiles : Oracles) (l : PListener) (hw : listenerWire l = true) :
     decodeListener F compiles l ≠ .panic := by
   unfold decodeListener listenerWire at *
   simp only
@@ -410,7 +410,7 @@ def slotWireL : PAny PListener → Bool
 
 /-- `UnmarshalLDS` (with its nested HttpConnectionManager, ThriftProxy, rate-limit and TypedStruct payloads)
 never panics on anything `proto.Unmarshal` can hand it -/
-theorem lds_no_panic (compiles : String → Bool) (xs : List (PAny PListener))
+theorem lds_no_panic (compiles : Oracles) (xs : List (PAny PListener))
     (h : xs.all slotWireL = true) : decodeLDS F compiles xs ≠ .panic := by
   induction xs with
   | nil => simp [decodeLDS]
@@ -435,7 +435,7 @@ theorem lds_no_panic (compiles : String → Bool) (xs : List (PAny PListener))
         | ok v => obtain ⟨dl, es⟩ := v; simp
 
 /-- a resource slot with the wrong type URL or with bytes that are not a valid encoding is an error -/
-theorem lds_bad_slot_is_error (compiles : String → Bool) (xs ys : List (PAny PListener)) (d : Decoded DListener)
+theorem lds_bad_slot_is_error (compiles : Oracles) (xs ys : List (PAny PListener)) (d : Decoded DListener)
     (hb : ∃ pre post, xs = pre ++ PAny.badUrl :: post ∨ xs = pre ++ PAny.badBytes :: post)
     (h : decodeLDS F compiles xs = .ok d) : d.errors ≠ [] := by
   obtain ⟨pre, post, hx⟩ := hb
@@ -491,7 +491,7 @@ theorem nds_error_iff (slots : List (DecodeCE.Slot (List (String × List String)
   | cons s rest => cases s <;> simp [DecodeCE.decodeNDS]
 
 /-! non-vacuity: a tree that is not wire-producible does panic in the model (so the hypothesis is not decoration) -/
-example : (match decodeRoute F (fun _ => true) ⟨"r", some ⟨.pfx "/", []⟩, .route ⟨.weighted none, none, none⟩⟩ with | .panic => true | _ => false) = true := by decide
+example : (match decodeRoute F ⟨fun _ => true, fun _ => true⟩ ⟨"r", some ⟨.pfx "/", []⟩, .route ⟨.weighted none, none, none⟩⟩ with | .panic => true | _ => false) = true := by decide
 example : slotWireR (.ok ⟨"rc", [⟨"vh", [⟨"r", some ⟨.pfx "/", []⟩, .route ⟨.cluster "c", none, none⟩⟩]⟩]⟩) = true := by decide
 
 end XdsVerif.Properties.C13
